@@ -160,6 +160,49 @@ def has_header_pointer(p):
     return any(t < 12 for t in PTR_TARGETS)
 
 
+def name_slots(p):
+    """Offsets of an accepted packet at which a label, a pointer or a root byte of a name is laid out in place (question, owner names,
+    names in NS/CNAME/PTR/MX/SOA/DNAME data). A pointer target outside this set reads a name through bytes that are not a name."""
+    slots = set()
+
+    def walk(off):
+        while True:
+            slots.add(off)
+            b = p[off]
+            if b & 0xC0 == 0xC0:
+                return off + 2
+            if b == 0:
+                return off + 1
+            off += b + 1
+    pos = walk(12) + 4
+    for _ in range(be16(p, 6) + be16(p, 8) + be16(p, 10)):
+        ne = walk(pos)
+        t, rdlen = be16(p, ne), be16(p, ne + 8)
+        rd = ne + 10
+        if t in (2, 5, 12, 39):
+            walk(rd)
+        elif t == 15:
+            walk(rd + 2)
+        elif t == 6:
+            walk(walk(rd))
+        pos = rd + rdlen
+    return slots
+
+
+def alien_pointer_targets(p):
+    """Pointer targets (>= 12) of the names of an accepted packet that are not name slots: TTLs, fixed fields, addresses, opaque data."""
+    del PTR_TARGETS[:]
+    try:
+        decode_ref(p)
+    except (Reject, IndexError):
+        return []
+    tg = [t for t in PTR_TARGETS if t >= 12]
+    if not tg:
+        return []
+    sl = name_slots(p)
+    return [t for t in tg if t not in sl]
+
+
 def ref_cname(p, off):
     """A (possibly compressed) name at off. Returns (labels, wire_end, hops)."""
     n = len(p)
